@@ -28,6 +28,8 @@ constexpr int kMaxThreads = 14;
 constexpr uint32_t kMaxSteps = 60000;
 constexpr uint32_t kLogCap = 24U << 20U;
 constexpr int kBlockAfter = 3;  // consecutive spin markers without any state change
+constexpr int kRoLimit = 40;    // consecutive read-only operations without any state change (loops without a spin hint)
+constexpr int kRoNoBranch = 10;
 
 struct Step {
   uint8_t chosen;
@@ -48,7 +50,9 @@ Shm *g_shm = nullptr;
 struct TCtx {
   bool started = false, finished = false, body_done = false;
   int spin = 0;           // consecutive unchanged spin markers
+  int ro_run = 0;         // consecutive read-only operations while nothing changed
   uint64_t mark_gw = 0;   // global write count at the last marker / own write
+  uint64_t ro_gw = 0;     // global write count during the current read-only run
   bool blocked = false;
   uint64_t blocked_gw = 0;
   const char *file = "";
@@ -62,6 +66,8 @@ uint64_t g_gw = 0;  // counts state-changing events
 TCtx g_t[kMaxThreads + 2];
 int g_nthreads = 0;
 thread_local int tl_self = 0;
+bool g_nobranch = false;
+bool g_track_main = false;
 bool g_in_child = false;
 
 // ---- tracked allocations (quarantined on free) ---------------------------------------------
@@ -147,9 +153,9 @@ int FindBlock(const void *p, bool live_only)
 
 bool OnAlloc(void *p, size_t sz, bool aligned)
 {
-  if (!g_in_child || g_ntrack == 0 || tl_self <= 0) return false;
+  if (!g_in_child || g_ntrack == 0 || (tl_self <= 0 && !g_track_main)) return false;
   for (int k = 0; k < g_ntrack; ++k) {
-    if (g_track[k].sz == sz && g_track[k].aligned == aligned) {
+    if ((g_track[k].sz == sz || g_track[k].sz == 0) && g_track[k].aligned == aligned) {
       if (g_nblocks >= 8192) return false;
       // lowest free name of this class
       bool used[512] = {};
@@ -286,7 +292,13 @@ std::string LocName(const void *p)
   return n;
 }
 
-void SetPostYieldPoint(const char *) {}
+void SetNoBranch(bool on) { g_nobranch = on; }
+void TrackMainThread(bool on) { g_track_main = on; }
+
+void BlockUntil(const std::function<bool()> &pred)
+{
+  while (!pred()) verif::SpinHint(0);
+}
 
 // ---- exploration (parent process) -----------------------------------------------------------
 namespace
@@ -308,18 +320,17 @@ Program ParseProgram(const std::string &line)
   p.text = line;
   std::istringstream is(line);
   std::string tok;
-  int section = 0;  // 0 = header, 1 = thread section, -1 final, -2 init
+  int section = 0;  // 0 = header, 1 = inside a thread section
+  int phase = 1;
   std::vector<Op> cur;
   auto flush = [&] {
-    if (section == 1) p.threads.push_back(cur);
-    else if (section == -1) p.final_ops = cur;
-    else if (section == -2) p.init_ops = cur;
+    if (section == 1) { p.threads.push_back(cur); p.phase.push_back(phase); }
     cur.clear();
   };
   while (is >> tok) {
-    if (tok == "|") { flush(); section = 1; continue; }
-    if (tok == "||") { flush(); section = -1; continue; }
-    if (tok == "|<") { flush(); section = -2; continue; }
+    if (tok == "|") { flush(); section = 1; if (phase == 0) phase = 1; continue; }
+    if (tok == "||") { flush(); section = 1; phase = (phase < 2) ? 2 : phase + 1; continue; }
+    if (tok == "|<") { flush(); section = 1; phase = 0; continue; }
     if (section == 0) {
       if (tok == "P") continue;
       if (p.name.empty()) p.name = tok; else p.params.push_back(tok);
@@ -370,11 +381,7 @@ const char *StatusName(uint32_t s, int sig)
   g_shm->status = kRunning;
   drv.Setup(prog);
   const int n = static_cast<int>(prog.threads.size());
-  const bool has_final = !prog.final_ops.empty();
-  const bool has_init = !prog.init_ops.empty();
-  const int final_id = has_final ? n + 1 : 0;
-  const int init_id = has_init ? n + (has_final ? 2 : 1) : 0;
-  g_nthreads = n + (has_final ? 1 : 0) + (has_init ? 1 : 0);
+  g_nthreads = n;
   if (g_nthreads > kMaxThreads) { fprintf(stderr, "too many threads\n"); _exit(3); }
   std::vector<std::thread> th;
   for (int id = 1; id <= g_nthreads; ++id) {
@@ -383,7 +390,7 @@ const char *StatusName(uint32_t s, int sig)
       thread_local Sentinel sentinel{id};
       WaitForBaton(id);
       g_t[id].started = true;
-      const auto &ops = (id <= n) ? prog.threads[id - 1] : (id == final_id ? prog.final_ops : prog.init_ops);
+      const auto &ops = prog.threads[id - 1];
       bool first = true;
       for (const auto &op : ops) {
         if (!first) YieldToController(id);  // a scheduling point between two API calls
@@ -400,16 +407,17 @@ const char *StatusName(uint32_t s, int sig)
   uint32_t status = kRunning;
   for (uint32_t step = 0;; ++step) {
     uint16_t enabled = 0;
-    bool all_done = true, others_done = true;
-    for (int id = 1; id <= n; ++id) others_done = others_done && g_t[id].finished;
+    bool all_done = true;
+    int min_phase = 1 << 30;  // the earliest phase that still has an unfinished thread
+    for (int id = 1; id <= n; ++id)
+      if (!g_t[id].finished && prog.phase[id - 1] < min_phase) min_phase = prog.phase[id - 1];
     for (int id = 1; id <= g_nthreads; ++id) {
       TCtx &t = g_t[id];
       if (t.finished) continue;
       all_done = false;
-      if (t.blocked && t.blocked_gw != g_gw) { t.blocked = false; t.spin = 0; t.mark_gw = g_gw; }
+      if (t.blocked && t.blocked_gw != g_gw) { t.blocked = false; t.spin = 0; t.ro_run = 0; t.mark_gw = g_gw; }
       if (t.blocked) continue;
-      if (id == final_id && !others_done) continue;
-      if (has_init && id != init_id && !g_t[init_id].finished) continue;
+      if (prog.phase[id - 1] != min_phase) continue;
       enabled |= static_cast<uint16_t>(1U << id);
     }
     if (all_done) { status = kOk; break; }
@@ -447,7 +455,7 @@ const char *StatusName(uint32_t s, int sig)
     Step &s = g_shm->steps[step];
     s.chosen = static_cast<uint8_t>(c);
     s.enabled = enabled;
-    s.flags = g_t[c].spin > 0 ? 1 : 0;
+    s.flags = (g_t[c].spin > 0 || g_t[c].ro_run >= kRoNoBranch || g_nobranch) ? 1 : 0;
     g_shm->nsteps = step + 1;
     SetCurrent(c);
     WaitCurrent(0);
@@ -624,10 +632,20 @@ void PostOp(const void *loc, int op, std::memory_order mo, uint64_t before, uint
   Log("{\"e\":\"op\",\"t\":%d,\"k\":\"%s\",\"loc\":\"%s\",\"cls\":\"%s\",\"mo\":\"%s\",\"site\":\"%s:%u\",\"b\":\"%lx\",\"a\":\"%lx\"}",
       me, kOpName[op], name, cls, MoName(mo), Base(g_t[me].file), g_t[me].line, (unsigned long)before, (unsigned long)after);
   bool modifies = !(op == kLoad || op == kCasFail || op == kFence);
+  TCtx &t = g_t[me];
   if (modifies) {
     ++g_gw;
-    g_t[me].mark_gw = g_gw;
-    g_t[me].spin = 0;
+    t.mark_gw = g_gw;
+    t.spin = 0;
+    t.ro_run = 0;
+    t.ro_gw = g_gw;
+  } else {
+    if (t.ro_gw == g_gw) {
+      if (++t.ro_run >= kRoLimit) { t.blocked = true; t.blocked_gw = g_gw; }
+    } else {
+      t.ro_run = 1;
+      t.ro_gw = g_gw;
+    }
   }
 }
 
